@@ -1,0 +1,137 @@
+// Copyright ©2026 The Gonum Authors. All rights reserved.
+// Use of this source code is governed by a BSD-style
+// license that can be found in the LICENSE file.
+
+//go:build verif
+
+package f64
+
+// Machine-checked contracts for the kernels of this package (verification
+// hook, build tag verif; this file contains comments only). The contract
+// language and the checker are described in /verif/DESIGN.md. The Go bodies
+// (build tag noasm, and every non-amd64 build) are verified against these
+// contracts; callers in blas/gonum, floats and mat are verified against the
+// contracts only, so the same clauses are what is assumed of the assembly.
+
+//@ spec strided(s []float64, i0 int, n int, inc int) bool = n <= 0 || (0 <= i0 && i0 < len(s) && 0 <= i0+(n-1)*inc && i0+(n-1)*inc < len(s))
+
+//@ func AxpyUnitary props: C01(frame) C07(safety) C08
+//@ requires len(y) >= len(x)
+//@ writes y[k] for k in 0..len(x)
+
+//@ func AxpyUnitaryTo props: C01(frame) C07(safety) C08
+//@ requires len(y) >= len(x) && len(dst) >= len(x)
+//@ writes dst[k] for k in 0..len(x)
+
+//@ func AxpyInc props: C01(frame) C07(safety) C08
+//@ requires int(n) >= 0 && strided(x, int(ix), int(n), int(incX)) && strided(y, int(iy), int(n), int(incY))
+//@ writes y[int(iy)+k*int(incY)] for k in 0..int(n)
+
+//@ func AxpyIncTo props: C01(frame) C07(safety) C08
+//@ requires int(n) >= 0 && strided(x, int(ix), int(n), int(incX)) && strided(y, int(iy), int(n), int(incY))
+//@ requires strided(dst, int(idst), int(n), int(incDst))
+//@ writes dst[int(idst)+k*int(incDst)] for k in 0..int(n)
+
+//@ func DotUnitary props: C01(frame) C07(safety) C08
+//@ requires len(y) >= len(x)
+//@ writes nothing
+
+//@ func DotInc props: C01(frame) C07(safety) C08
+//@ requires int(n) >= 0 && strided(x, int(ix), int(n), int(incX)) && strided(y, int(iy), int(n), int(incY))
+//@ writes nothing
+
+//@ func ScalUnitary props: C01(frame) C07(safety) C08
+//@ writes x[k] for k in 0..len(x)
+
+//@ func ScalUnitaryTo props: C01(frame) C07(safety) C08
+//@ requires len(dst) >= len(x)
+//@ writes dst[k] for k in 0..len(x)
+
+//@ func ScalInc props: C01(frame) C07(safety) C08
+//@ requires int(n) >= 0 && strided(x, 0, int(n), int(incX))
+//@ writes x[k*int(incX)] for k in 0..int(n)
+
+//@ func ScalIncTo props: C01(frame) C07(safety) C08
+//@ requires int(n) >= 0 && strided(x, 0, int(n), int(incX)) && strided(dst, 0, int(n), int(incDst))
+//@ writes dst[k*int(incDst)] for k in 0..int(n)
+
+//@ func L1Norm props: C07(safety) C08
+//@ writes nothing
+
+//@ func L1NormInc props: C07(safety) C08
+//@ requires n >= 0 && incX >= 1 && strided(x, 0, n, incX)
+//@ writes nothing
+
+//@ func Add props: C07(safety) C08
+//@ requires len(dst) >= len(s)
+//@ writes dst[k] for k in 0..len(s)
+
+//@ func AddConst props: C07(safety) C08
+//@ writes x[k] for k in 0..len(x)
+
+//@ func CumSum props: C07(safety) C08
+//@ requires len(dst) >= len(s)
+//@ writes dst[k] for k in 0..len(s)
+//@ ensures sameSlice(result, dst)
+
+//@ func CumProd props: C07(safety) C08
+//@ requires len(dst) >= len(s)
+//@ writes dst[k] for k in 0..len(s)
+//@ ensures sameSlice(result, dst)
+
+//@ func Div props: C07(safety) C08
+//@ requires len(dst) >= len(s)
+//@ writes dst[k] for k in 0..len(s)
+
+//@ func DivTo props: C07(safety) C08
+//@ requires len(dst) >= len(s) && len(t) >= len(s)
+//@ writes dst[k] for k in 0..len(s)
+//@ ensures sameSlice(result, dst)
+
+//@ func L1Dist props: C07(safety) C08
+//@ requires len(t) >= len(s)
+//@ writes nothing
+
+//@ func LinfDist props: C07(safety) C08
+//@ requires len(t) >= len(s)
+//@ writes nothing
+
+//@ func Sum props: C07(safety) C08
+//@ writes nothing
+
+//@ func L2NormUnitary props: C07(safety) C08
+//@ writes nothing
+
+//@ func L2NormInc props: C07(safety) C08
+//@ requires int(n) >= 0 && int(incX) >= 1 && strided(x, 0, int(n), int(incX))
+//@ writes nothing
+
+//@ func L2DistanceUnitary props: C07(safety) C08
+//@ requires len(y) >= len(x)
+//@ writes nothing
+
+//@ func Ger props: C01(frame) C07(safety) C08
+//@ requires int(m) >= 0 && int(n) >= 0 && int(lda) >= int(n) && int(lda) >= 1
+//@ requires m == 0 || len(a) >= int(lda)*(int(m)-1)+int(n)
+//@ requires int(incX) != 0 && int(incY) != 0
+//@ requires m == 0 || len(x) > (int(m)-1)*abs(int(incX))
+//@ requires n == 0 || len(y) > (int(n)-1)*abs(int(incY))
+//@ writes a[i*int(lda)+j] for i in 0..int(m), j in 0..int(n)
+
+//@ func GemvN props: C01(frame) C07(safety) C08
+//@ requires int(m) >= 0 && int(n) >= 0 && int(lda) >= int(n) && int(lda) >= 1
+//@ requires m == 0 || len(a) >= int(lda)*(int(m)-1)+int(n)
+//@ requires int(incX) != 0 && int(incY) != 0
+//@ requires n == 0 || len(x) > (int(n)-1)*abs(int(incX))
+//@ requires m == 0 || len(y) > (int(m)-1)*abs(int(incY))
+//@ let ky = ite(int(incY) < 0, -(int(m)-1)*int(incY), 0)
+//@ writes y[ky+k*int(incY)] for k in 0..int(m)
+
+//@ func GemvT props: C01(frame) C07(safety) C08
+//@ requires int(m) >= 0 && int(n) >= 0 && int(lda) >= int(n) && int(lda) >= 1
+//@ requires m == 0 || len(a) >= int(lda)*(int(m)-1)+int(n)
+//@ requires int(incX) != 0 && int(incY) != 0
+//@ requires m == 0 || len(x) > (int(m)-1)*abs(int(incX))
+//@ requires n == 0 || len(y) > (int(n)-1)*abs(int(incY))
+//@ let ky = ite(int(incY) < 0, -(int(n)-1)*int(incY), 0)
+//@ writes y[ky+k*int(incY)] for k in 0..int(n)
